@@ -96,15 +96,26 @@ func genEDI(t *tape.Tape, o GenOpts) *World {
 		m.Ctx = []string{"../h0"}
 	}
 	rec := D{"name": "R", "is_target": true, "min": 0, "max": -1, "elements": elems(fn, 0)}
+	// a segment declared "not used" (max 0) in front of the items, the way implementation guides list
+	// segments a partner does not send; some records carry one all the same
+	unused, unusedStartsGroup := false, false
 	if sh.NItemFields > 0 {
 		child := D{"name": "D", "min": 0, "max": -1, "elements": elems(gn, -1)}
+		unused = t.Chance("edi.unused-segment", 1, 3)
+		kids := []interface{}{child}
+		if unused {
+			kids = []interface{}{D{"name": "NTE", "min": 0, "max": 0}, child}
+			w.SetTag("edi.segment-declared-with-max-0", "1")
+		}
 		if t.Bool("edi.childgroup") {
-			child = D{"name": "LOOP", "type": "segment_group", "min": 0, "max": -1, "child_segments": []interface{}{child}}
+			unusedStartsGroup = unused
+			grp := D{"name": "LOOP", "type": "segment_group", "min": 0, "max": -1, "child_segments": kids}
+			kids = []interface{}{grp}
 			m.Item = &ItemModel{XPath: "LOOP/D", Fields: gn, IntField: gn[sh.ItemIntIdx]}
 		} else {
 			m.Item = &ItemModel{XPath: "D", Fields: gn, IntField: gn[sh.ItemIntIdx]}
 		}
-		rec["child_segments"] = []interface{}{child}
+		rec["child_segments"] = kids
 	}
 	isa := D{"name": "ISA", "elements": []interface{}{D{"name": "h0", "index": 1}},
 		"child_segments": []interface{}{rec, D{"name": "IEA", "elements": []interface{}{D{"name": "cnt", "index": 1, "default": "0"}}}}}
@@ -142,6 +153,11 @@ func genEDI(t *tape.Tape, o GenOpts) *World {
 		} else {
 			sb.WriteString(s + segDelim + trailingNL)
 		}
+		if unused && (r.Short > 0 || (unusedStartsGroup && len(r.Items) > 0)) {
+			// (a segment group is recognised by its first child: where the unused segment is the first
+			// child of the items' group it has to be there for the items to be read)
+			sb.WriteString(seg("NTE", []string{"n"}))
+		}
 		for _, it := range r.Items {
 			sb.WriteString(seg("D", it))
 		}
@@ -153,6 +169,14 @@ func genEDI(t *tape.Tape, o GenOpts) *World {
 		w.Suffix += "\n\n"
 	}
 	drawRecs(t, w, sh, o)
+	if unused {
+		for i := range w.LRecs {
+			if t.Chance("edi.unused-segment.present", 1, 3) {
+				w.LRecs[i].Short = 1
+				w.RecTexts[i] = w.Render(w.LRecs[i])
+			}
+		}
+	}
 	_ = ignoreCRLF
 	if MaybeScalarOutput(t, decls, m, o) {
 		w.SetTag("scalar-output", "1")
